@@ -1,170 +1,10 @@
 /-
   Generic lemmas about the building blocks of `Torf.Model.Validate`: `getItem`, `keyExists`,
-  `assertFinal`, the magnitude bound that excludes finding D07j, lookups.
+  `assertFinal`, lookups.
 -/
 import Torf.Lemmas.Export
 namespace Torf.Validate
 open Torf Torf.Export
-
-/-! ### the int→str limit -/
-
-/-- the value is below the int→str limit in total -/
-def Small (v : PyVal) : Prop := sumAbs v < 10 ^ maxStrDigits
-
-theorem maxStrDigits_ge : 3 ≤ maxStrDigits := by decide
-
-theorem pow3_le_bound : (10 : Nat) ^ 3 ≤ 10 ^ maxStrDigits :=
-  Nat.pow_le_pow_right (by omega) maxStrDigits_ge
-
-theorem bound_ge : 256 ≤ 10 ^ maxStrDigits := by
-  have h2 : (256 : Nat) ≤ 10 ^ 3 := by omega
-  exact Nat.le_trans h2 pow3_le_bound
-
-attribute [local irreducible] maxStrDigits in
-mutual
-theorem reprFails_le : ∀ v, reprFails v = true → 10 ^ maxStrDigits ≤ sumAbs v
-  | .int i, h => by
-    simp only [reprFails] at h
-    unfold intTooBig at h
-    show 10 ^ maxStrDigits ≤ i.natAbs
-    exact of_decide_eq_true h
-  | .list l, h => by
-    simp only [reprFails] at h; simp only [sumAbs]; exact reprFailsList_le l h
-  | .tuple l, h => by
-    simp only [reprFails] at h; simp only [sumAbs]; exact reprFailsList_le l h
-  | .dict kvs, h => by
-    simp only [reprFails] at h; simp only [sumAbs]; exact reprFailsKvs_le kvs h
-  | .none, h => by simp [reprFails] at h
-  | .bool _, h => by simp [reprFails] at h
-  | .float _, h => by simp [reprFails] at h
-  | .str _, h => by simp [reprFails] at h
-  | .bytes _, h => by simp [reprFails] at h
-  | .datetime _, h => by simp [reprFails] at h
-  | .other _, h => by simp [reprFails] at h
-theorem reprFailsList_le : ∀ l, reprFailsList l = true → 10 ^ maxStrDigits ≤ sumAbsList l
-  | [], h => by simp [reprFailsList] at h
-  | v :: r, h => by
-    simp only [reprFailsList, Bool.or_eq_true] at h
-    simp only [sumAbsList]
-    rcases h with h | h
-    · have := reprFails_le v h; omega
-    · have := reprFailsList_le r h; omega
-theorem reprFailsKvs_le : ∀ l, reprFailsKvs l = true → 10 ^ maxStrDigits ≤ sumAbsKvs l
-  | [], h => by simp [reprFailsKvs] at h
-  | (k, v) :: r, h => by
-    simp only [reprFailsKvs, Bool.or_eq_true] at h
-    simp only [sumAbsKvs]
-    rcases h with (h | h) | h
-    · have := reprFails_le k h; omega
-    · have := reprFails_le v h; omega
-    · have := reprFailsKvs_le r h; omega
-end
-
-theorem Small.repr {v : PyVal} (h : Small v) : reprFails v = false := by
-  cases hr : reprFails v with
-  | false => rfl
-  | true => have := reprFails_le v hr; unfold Small at h; omega
-
-theorem sumAbs_lookupStr {k : String} {kvs : List (PyVal × PyVal)} {v : PyVal}
-    (h : PyVal.lookupStr k kvs = some v) : sumAbs v ≤ sumAbsKvs kvs := by
-  induction kvs with
-  | nil => simp [PyVal.lookupStr] at h
-  | cons p t ih =>
-    obtain ⟨k', v'⟩ := p
-    simp only [sumAbsKvs]
-    cases k' with
-    | str s =>
-      simp only [PyVal.lookupStr] at h
-      split at h
-      · simp only [Option.some.injEq] at h; subst h; omega
-      · have := ih h; omega
-    | _ => simp only [PyVal.lookupStr] at h; have := ih h; omega
-
-theorem sumAbs_lookupNat {n : Nat} {kvs : List (PyVal × PyVal)} {v : PyVal}
-    (h : lookupNat n kvs = some v) : sumAbs v ≤ sumAbsKvs kvs := by
-  induction kvs with
-  | nil => simp [lookupNat] at h
-  | cons p t ih =>
-    obtain ⟨k', v'⟩ := p
-    simp only [sumAbsKvs]
-    simp only [lookupNat] at h
-    split at h
-    · simp only [Option.some.injEq] at h; subst h; omega
-    · have := ih h; omega
-
-theorem sumAbs_mem {l : List PyVal} {v : PyVal} (h : v ∈ l) : sumAbs v ≤ sumAbsList l := by
-  induction l with
-  | nil => simp at h
-  | cons a t ih =>
-    simp only [sumAbsList]
-    rcases List.mem_cons.mp h with h | h
-    · subst h; omega
-    · have := ih h; omega
-
-/-- whatever `obj[key]` returns is below the limit if `obj` is -/
-theorem Small.getItem {obj v : PyVal} {k : Key} (hs : Small obj) (h : getItem obj k = .val v) :
-    Small v := by
-  unfold Small at hs ⊢
-  have hb := bound_ge
-  cases obj with
-  | dict kvs =>
-    simp only [Validate.getItem] at h
-    split at h
-    · rename_i v' hl
-      simp only [Get.val.injEq] at h; subst h
-      simp only [sumAbs] at hs
-      cases k with
-      | s s => have := sumAbs_lookupStr (k := s) hl; omega
-      | i n => have := sumAbs_lookupNat (n := n) hl; omega
-    · exact absurd h (by simp)
-  | list l =>
-    cases k with
-    | s s => simp [Validate.getItem] at h
-    | i n =>
-      simp only [Validate.getItem] at h
-      split at h
-      · rename_i v' hl
-        simp only [Get.val.injEq] at h; subst h
-        simp only [sumAbs] at hs
-        have := sumAbs_mem (List.mem_of_getElem? hl); omega
-      · exact absurd h (by simp)
-  | tuple l =>
-    cases k with
-    | s s => simp [Validate.getItem] at h
-    | i n =>
-      simp only [Validate.getItem] at h
-      split at h
-      · rename_i v' hl
-        simp only [Get.val.injEq] at h; subst h
-        simp only [sumAbs] at hs
-        have := sumAbs_mem (List.mem_of_getElem? hl); omega
-      · exact absurd h (by simp)
-  | bytes b =>
-    cases k with
-    | s s => simp [Validate.getItem] at h
-    | i n =>
-      simp only [Validate.getItem] at h
-      split at h
-      · rename_i x hl
-        simp only [Get.val.injEq] at h; subst h
-        simp only [sumAbs, Int.natAbs_natCast]
-        have := x.toNat_lt; omega
-      · exact absurd h (by simp)
-  | str s =>
-    cases k with
-    | s s' => simp [Validate.getItem] at h
-    | i n =>
-      simp only [Validate.getItem] at h
-      split at h
-      · simp only [Get.val.injEq] at h; subst h
-        simp only [sumAbs]; omega
-      · exact absurd h (by simp)
-  | none => cases k <;> simp [Validate.getItem] at h
-  | bool _ => cases k <;> simp [Validate.getItem] at h
-  | int _ => cases k <;> simp [Validate.getItem] at h
-  | float _ => cases k <;> simp [Validate.getItem] at h
-  | datetime _ => cases k <;> simp [Validate.getItem] at h
-  | other _ => cases k <;> simp [Validate.getItem] at h
 
 /-! ### `key_exists_in_list_or_dict` against `obj[key]` -/
 
@@ -230,30 +70,30 @@ theorem keyExists_spec (k : Key) (obj : PyVal) :
 
 /-! ### `assert_type` on the object the key chain leads to -/
 
-theorem checkVal_err {r : Rule} {v : PyVal} {e : ErrKind} (hv : reprFails v = false)
+theorem checkVal_err {r : Rule} {v : PyVal} {e : ErrKind}
     (h : checkVal r v = .error e) : e = .metainfo := by
   unfold checkVal at h
   split at h
   · exact absurd h (by simp [pure, Except.pure])
-  · simpa [raiseRepr, hv, throw, throwThe, MonadExceptOf.throw, eq_comm] using h
+  · simpa [throw, throwThe, MonadExceptOf.throw, eq_comm] using h
 
 theorem checkVal_ok {r : Rule} {v : PyVal} (h : checkVal r v = .ok ()) : passes r v = true := by
   unfold checkVal at h
   split at h
   · assumption
-  · unfold raiseRepr at h; split at h <;> exact absurd h (by simp [throw, throwThe, MonadExceptOf.throw])
+  · exact absurd h (by simp [throw, throwThe, MonadExceptOf.throw])
 
-/-- `assert_type` raises nothing but MetainfoError when the key fits the container and the value
-    can be printed -/
+/-- `assert_type` raises nothing but MetainfoError when the key fits the container (whatever the
+    offending value is: the message is built with `safe_repr`) -/
 theorem assertFinal_err {obj : PyVal} {k : Key} {r : Rule} {e : ErrKind}
-    (hf : keyFits obj k = true) (hs : Small obj)
+    (hf : keyFits obj k = true)
     (h : assertFinal obj k r = .error e) : e = .metainfo := by
   unfold assertFinal at h
   rcases keyExists_spec k obj with ⟨hf', _⟩ | ⟨hk, v, hv⟩ | ⟨hk, _⟩
   · rw [hf] at hf'; exact absurd hf' (by simp)
   · rw [hk] at h
     simp only [bind, Except.bind, Bool.not_true, Bool.false_eq_true, if_false, hv] at h
-    exact checkVal_err (hs.getItem hv).repr h
+    exact checkVal_err h
   · rw [hk] at h
     simp only [bind, Except.bind, Bool.not_false, if_true] at h
     split at h
@@ -340,20 +180,5 @@ theorem ensureInfo_lookup (md0 : Items) : ∃ iv, PyVal.lookupStr "info" (ensure
   · rename_i h
     refine ⟨.dict [], ?_⟩
     rw [lookupStr_append, h]; simp [PyVal.lookupStr]
-
-theorem sumAbsKvs_append (a b : Items) : sumAbsKvs (a ++ b) = sumAbsKvs a + sumAbsKvs b := by
-  induction a with
-  | nil => simp [sumAbsKvs]
-  | cons p t ih => obtain ⟨k, v⟩ := p; simp only [List.cons_append, sumAbsKvs, ih]; omega
-
-theorem ensureInfo_small {md0 : Items} (h : numbersSmall md0 = true) :
-    Small (.dict (ensureInfo md0)) := by
-  unfold numbersSmall at h
-  have h := of_decide_eq_true h
-  simp only [sumAbs] at h
-  unfold Small ensureInfo
-  split
-  · simpa [sumAbs] using h
-  · simp only [sumAbs, sumAbsKvs_append, sumAbsKvs]; omega
 
 end Torf.Validate
